@@ -40,6 +40,7 @@ NX = 2048
 
 def setup_worker(ctx):
     contracts.install_algebra(ctx)
+    contracts.install_helpers(ctx, ['add_linear', 'index_array'])
 
 
 # ------------------------------------------------------------------ generation
